@@ -344,9 +344,9 @@ def _case_worker(task):
     rng = random.Random(f"{seed}:{idx}")
     with warnings.catch_warnings():
         warnings.simplefilter("ignore")
-        feat = {"custom": True, "generic": True}
+        feat = {"custom": True, "generic": True, "func_if": True, "ml": True}
         if mode == "naming":  # no version adaptation: every name is predictable
-            feat = {"mixed": False, "rmax": False, "custom": True, "generic": True}
+            feat = {"mixed": False, "rmax": False, "custom": True, "generic": True, "func_if": True, "ml": True}
         g = L.Gen(rng, feat)
         spec = g.gen_spec()
         st, m = L.build_spec(spec)
@@ -523,8 +523,8 @@ def run(ck: core.Check):
                       f"{type(e).__name__}: {e} (spox._scope.ScopeSpace attributes/signatures changed?)")
 
     # generated programs (oracle on all; naming correspondence on the 'naming' slice)
-    n_oracle = ck.pick(2000, 12000)
-    n_naming = ck.pick(600, 5000)
+    n_oracle = ck.pick(1600, 12000)
+    n_naming = ck.pick(500, 5000)
     tasks = [(ck.seed, i, "oracle") for i in range(n_oracle)] + [(ck.seed, 10**6 + i, "naming") for i in range(n_naming)]
     results = L.robust_map(case_worker, tasks, min(14, mp.cpu_count()), core.WORK)
     # a case on which the worker process died (C++ abort inside a third-party judge): judged again without
